@@ -107,6 +107,8 @@ def run_case(case: dict[str, Any]) -> Outcome:
         out.fail(f"serve_died/{type(e).__name__}", f"server thread ended with {type(e).__name__}: {e}")
     # ---- (1) transparency: shm ≡ inline, model as arbiter
     for ci, call in enumerate(calls):
+        if ci >= len(inline["obs"]) or ci >= len(res["obs"]):
+            break  # a history cut short after the client could not read a response (already reported as a problem)
         a, b = inline["obs"][ci], res["obs"][ci]
         kind = spec["methods"][call["mid"]]["kind"]
         diffs = _differences(a, b, b["raw"])
